@@ -206,7 +206,7 @@ def run_v(spec, res):
     clock = VClock().install()
     try:
         G = pki.PKI(clock.now(), n_at=1, aa_psids=(36, 37, 638, 99, 140), at_psids=(36, 37, 638), name="v")
-        windows = [("years", 10), ("seconds", 30), ("minutes", 2), ("hours", 1)]
+        windows = [("years", 10), ("seconds", 30), ("minutes", 2), ("hours", 1), ("sixtyHours", 1), ("sixtyHours", 3), ("hours", 700)]   # every whole-second Duration unit (round 7, C09-agent7)
         block = []
         rx = None
         for k in range(spec["cases"]):
